@@ -483,10 +483,16 @@ def corpus_fixed():
     # a trait the macro must REJECT: a parameter attribute with a key it does not know next to `rename`
     # (until /repo's repair of extract_zlink_attrs the error was swallowed together with the rename, and the
     # argument went out under its Rust name)
-    t3 = {"tid": 3, "trait": "T3Proxy", "iface": "org.example.T3", "attr": "lit", "expect_reject": True, "methods": [
+    t3 = {"tid": 3, "trait": "T3Proxy", "iface": "org.example.T3", "attr": "lit", "expect_reject": True,
+          "expect_error": "unknown zlink attribute", "methods": [
         M("get", [dict(P("key", ["str"], "Key"), attr_extra=", typo")], [[["s", "k"]]]),
     ]}
-    return [t0, t1, t2, t3]
+    # ... and a parameter that has no name: `_: u32` (it used to be left out of the call silently)
+    t4 = {"tid": 4, "trait": "T4Proxy", "iface": "org.example.T4", "attr": "lit", "expect_reject": True,
+          "expect_error": "must be named by an identifier", "methods": [
+        M("put", [P("_", ["u32"]), P("name", ["str"])], [[["n", "5"], ["s", "n"]]]),
+    ]}
+    return [t0, t1, t2, t3, t4]
 
 
 # identifiers a user may well pick for a parameter and that generated code is likely to use itself;
